@@ -125,7 +125,7 @@ def run(tier, rep):
     rbin = common.build(race=True)
     progs = [{'id': 'O:' + k, 'src': v, 'solo': solo[k]} for k, v in observers.items()] + [{'id': 'P:' + k, 'src': v, 'solo': solo['P:' + k]} for k, v in POLLUTERS.items()]
     r.shuffle(progs)
-    conc_total = {'runs': 0, 'shared_runs': 0, 'repl_sessions': 0, 'yields_injected': 0, 'instructions_observed': 0}
+    conc_total = {'runs': 0, 'shared_runs': 0, 'repl_sessions': 0, 'fresh_gomodule_imports': 0, 'yields_injected': 0, 'instructions_observed': 0}
     races_all = []
     configs = [(16, 6, 50), (4, 10, 7), (2, 12, 0)] if tier == 'quick' else [(16, 60, 50), (64, 20, 200), (4, 100, 7), (2, 100, 3), (16, 40, 0)]
     for ci, (N, rounds, density) in enumerate(configs):
@@ -150,7 +150,7 @@ def run(tier, rep):
             o = json.load(open(outp))
             for k in conc_total:
                 conc_total[k] += o.get(k, 0)
-            rep.evaluations += o.get('runs', 0) + o.get('shared_runs', 0) + o.get('repl_sessions', 0)
+            rep.evaluations += o.get('runs', 0) + o.get('shared_runs', 0) + o.get('repl_sessions', 0) + o.get('fresh_gomodule_imports', 0)
             nontriv.add(('conc', N, density))
             for pid_, m in zip(o.get('mismatch_ids') or [], o.get('mismatches') or []):
                 key = pid_ if not pid_.startswith('O:gen') else 'O:gen'
